@@ -57,8 +57,15 @@ def histories(quick, rng):
     hs.append(("maintenance", [{"op": "create"}, P("mv2://a", 1, "long", 2600, 1), P("mv2://b", 2, "bin", 400, 2), {"op": "commit"},
                                {"op": "ticket", "seq": 5, "cap": 0}, {"op": "delete", "frame": 0}, {"op": "commit"}, {"op": "vacuum"},
                                P("mv2://c", 3, "text", 80, 3), {"op": "close"}]))
-    hs.append(("growth", [{"op": "create"}, P("mv2://a", 1, "text", 100, 1), {"op": "commit"}, P("mv2://big", 2, "bin", 70000, 2),
+    hs.append(("growth", [{"op": "create"}, P("mv2://a", 1, "text", 100, 1, emb=2), {"op": "commit"}, P("mv2://big", 2, "bin", 70000, 2),
                           P("mv2://c", 3, "bin", 30, 3), {"op": "close"}, {"op": "open"}, {"op": "close"}]))
+    # commits that carry no log record (only the handle is dirty: a mesh node, a memory card, a binding), and what a crash inside
+    # them leaves; the embeddings, cards and mesh committed before must survive
+    hs.append(("dirty", [{"op": "create"}, P("mv2://a", 1, "text", 120, 1, emb=1), P("mv2://b", 2, "text", 300, 2), {"op": "commit"},
+                         {"op": "mesh_node", "name": "ada", "canon": "ada", "kind": "person", "conf": 50, "frame": 0, "start": 3, "len": 2},
+                         {"op": "commit"},
+                         {"op": "card_put", "entity": "e1", "slot": "s1", "value": 1, "rel": "sets", "event_date": 5, "frame": 0},
+                         {"op": "commit"}, {"op": "bind_only", "mem": 1}, {"op": "close"}, {"op": "open"}, {"op": "close"}]))
     hs.append(("doctor", [{"op": "create"}, P("mv2://a", 1, "text", 100, 1, emb=1), P("mv2://b", 2, "bin", 400, 2), {"op": "commit"},
                           {"op": "delete", "frame": 1}, P("mv2://c", 3, "text", 70, 3), {"op": "abandon"}, {"op": "doctor", "vacuum": True},
                           {"op": "open"}, {"op": "close"}]))
@@ -209,9 +216,20 @@ def corruption_states(final, rng, quick, base, keep_fn):
             offs = sorted(set(offs + [a + k for k in (0, 8, 9, 16, 47, 48, 60, 200, 500, 1000, 1500) if a + k < b]))
         if cname == "data":
             offs = sorted(set(offs + [a + k for k in range(0, min(b - a, 1400), 97 if quick else 23)]))
+        gentle = set()
+        if cname == "toc":
+            # a character inside each stored URI: a flip the TOC still decodes with, and that a reader can see
+            pos = a
+            while len(gentle) < (8 if quick else 40):
+                pos = data.find(b"mv2://", pos, b)
+                if pos < 0:
+                    break
+                gentle.add(pos + 7)
+                pos += 6
+            offs = sorted(set(offs) | gentle)
         for off in offs:
             img = bytearray(data)
-            img[off] ^= rng.choice([0x01, 0x10, 0x80, 0xFF])
+            img[off] ^= 0x01 if off in gentle else rng.choice([0x01, 0x10, 0x80, 0xFF])
             st = {"m.mv2": bytes(img)}
             out.append((cname, "flip", off, keep_fn(st)))
         # zero the whole class / its first half
@@ -326,7 +344,7 @@ def engine(tier, only=None):
         os.makedirs(sbase)
         states, nops, nmut, uniq = enumerate_states(lg, rng, (2 if quick else 5), sbase, max_power_points=(60 if quick else 400), scenario=ops)
         corr = []
-        if hname in ("basic", "maintenance") or hname.startswith("random1"):
+        if hname in ("basic", "maintenance", "recovery2") or hname.startswith("random1"):
             # C20: corruptions of the committed, closed file this history ends with
             corr = corruption_states(enumerate_states.final, rng, quick, sbase, enumerate_states.keep)
             stats["corruptions"] = stats.get("corruptions", 0) + len(corr)
@@ -438,7 +456,7 @@ SELF_TESTS = [(("no_wal_fsync",), False, "PowerSafeMC"), (("no_stage_fsync",), F
 def model_check(quick):
     """Mv2Disk, the writer with crashes and power losses at every step: the design as built must satisfy the invariants, and
     each named deviation (and the mixed-fault model) must violate the one it is expected to (non-vacuity of the invariants)."""
-    jobs = [("asbuilt", mc_cfg(ops=3 if quick else 4, crashes=3 if quick else 4), None)]
+    jobs = [("asbuilt", mc_cfg(ops=3 if quick else 5, crashes=3 if quick else 4), None)]
     for (defs, mixed, inv) in SELF_TESTS:
         jobs.append(("+".join(defs) or "mixed_faults", mc_cfg(defs, mixed), inv))
 
